@@ -7,8 +7,8 @@ SPEC = {
     'level': 'model_checking',
     'engine': 'E',
     'technique': 'bounded-exhaustive enumeration: (a) every instruction of the text of real Go binaries, compared with an independent reference '
-                 'decoder (the Go toolchain\'s x86asm copy, harness/ref/x86asm); (b) three fully enumerated byte-string spaces judged against the '
-                 'invariants of the statement',
+                 'decoder (the Go toolchain\'s x86asm copy, harness/ref/x86asm); (b) fully enumerated byte-string spaces (heads x tails, substitutions, prefixes, runs of 1..15 legacy prefixes) judged against the '
+                 'invariants of the statement; (c) the extent of every corpus function as goom\'s scan measures it against a reference walk',
     'claim': 'on every instruction of the text of the harness binary and of go (thorough: + gofmt, compile, link, asm, cover, vet), walked function by '
              'function with the reference decoder\'s boundaries, goom\'s x86asm.Decode reports the same Len, opcode mnemonic, PCRel and PCRelOff as the '
              'reference; on every enumerated input (all 1-/2-byte heads, thorough: 3-byte heads, x 4 tails; every single-byte substitution inside every '
@@ -18,7 +18,9 @@ SPEC = {
             'all three spaces completely for the 8-binary corpus. 64-bit mode only (the only mode goom uses). Inputs are at most 16 bytes; agreement is '
             'claimed on the corpus only, not on arbitrary byte strings (the statement asks exactly that)',
     'jobs': [{'bin': 'c16', 'shards': 16, 'budget': {'quick': 900, 'thorough': 7200},
-              'env': {'GODEBUG': 'clobberfree=0'}}],
+              'env': {'GODEBUG': 'clobberfree=0'}},
+             # the function-extent scan built on the decoder (bytecode.GetFuncSize) against a one-instruction-at-a-time walk with the reference decoder
+             {'bin': 'c03', 'shards': 16, 'sub': 'extent', 'env': {'GODEBUG': 'clobberfree=0'}}],
     'rule': 'engine E. corpus = .text of /proc/self/exe and $GOROOT/bin/go (thorough: + gofmt and $GOTOOLDIR/{compile,link,asm,cover,vet}); functions from '
             '.gopclntab (debug/gosym); inside a function the reference decodes a 16-byte window at pos, goom decodes the same window, pos += reference Len; '
             'a function in which the reference fails is cut short there and counted. Function i of the concatenated corpus is compared by shard i mod 16. '
